@@ -246,3 +246,21 @@ CHECKS["C12"] = dict(
                "confirmed with a deterministic two-thread schedule and repaired (fix commit cf908c9).",
     design_ref="DESIGN.md 3/C12",
 )
+
+CHECKS["C02"] = dict(
+    category="other",
+    technique="documentation-to-code agreement (parsed rst table vs dominating exact-type guards of the strict loaders and "
+              "registered dumpers), sibling-table equality, path rules over the union/optional/literal/dict closures, "
+              "kind-agreement (typed vs plain membership) rule",
+    text="Decides structural necessary conditions of the documented per-type rules: the exact-type set accepted by each of "
+         "the seven strict scalar loaders equals the documentation's 'Allowed strict origins' and the dumper has the "
+         "documented outer form; abstract collections map to the documented minimal concrete types identically for loaders "
+         "and coercers; each union loader variant returns the first accepting case's result, skips a case only on LoadError "
+         "and fails only after all cases; Optional passes None through; union dumping dispatches on the runtime class "
+         "through its MRO and a Literal case wins only by type-exact equality; Literal enum/bytes wrappers compare with "
+         "plain cases; iterable/dict outer forms; NewType/Annotated/alias providers delegate to the wrapped type.",
+    level_note="Trusted: Python ast, the rst table layout, CPython constructors. Two genuine defects were found by the "
+               "kind-agreement rule and repaired (fix commits eb74501, 1439840). The documented 'enum loaders first' order "
+               "differs from the code only for data two Literal cases accept (documented as undefined): no rule.",
+    design_ref="DESIGN.md 3/C02",
+)
